@@ -3,6 +3,7 @@ use crate::plan::*;
 use crate::sim::Ctx;
 pub mod demux;
 pub mod dtls;
+pub mod dtls_mitm;
 pub mod hostile;
 pub mod hostile_gen;
 pub mod hostile_mut;
@@ -22,6 +23,7 @@ pub async fn dispatch(ctx: &Ctx) {
     match ctx.plan.scenario.as_str() {
         "sctp_layer" => sctp::run(ctx).await,
         "dtls_layer" => dtls::run(ctx).await,
+        "dtls_mitm" => dtls_mitm::run(ctx).await,
         "demux" => demux::run(ctx).await,
         "latch" => latch::run(ctx).await,
         "srtp_hist" => srtp::run(ctx).await,
@@ -46,7 +48,8 @@ pub enum Tier {
 pub fn generate(prop: &str, seed: u64, idx: u64, tier: Tier) -> Option<Plan> {
     match prop {
         "C01" | "C12" | "C13" => Some(gen_sctp::generate(prop, seed, idx, tier)),
-        "C11" | "C02" | "C03" => Some(dtls::generate(prop, seed, idx, tier)),
+        "C11" | "C03" => Some(dtls::generate(prop, seed, idx, tier)),
+        "C02" => Some(c02_generate(prop, seed, idx, tier)),
         "C19" => Some(demux::generate(prop, seed, idx, tier)),
         "C18" => Some(latch::generate(prop, seed, idx, tier)),
         "C04" | "C05" => Some(srtp::generate(prop, seed, idx, tier)),
@@ -63,7 +66,8 @@ pub fn generate(prop: &str, seed: u64, idx: u64, tier: Tier) -> Option<Plan> {
 /// Number of runs for a tier.
 pub fn budget(prop: &str, tier: Tier) -> u64 {
     match (prop, tier) {
-        ("C11" | "C02" | "C03", t) => dtls::budget(prop, t),
+        ("C02", t) => dtls::budget(prop, t) + dtls_mitm::budget(prop, t),
+        ("C11" | "C03", t) => dtls::budget(prop, t),
         ("C19", t) => demux::budget(prop, t),
         ("C18", t) => latch::budget(prop, t),
         ("C04" | "C05", t) => srtp::budget(prop, t),
@@ -96,5 +100,19 @@ fn c14_generate(prop: &str, seed: u64, idx: u64, tier: Tier) -> Plan {
         srtpgate::generate(prop, seed, block * a + off, tier)
     } else {
         srtpgate_pc::generate(prop, seed, block * b + (off - a), tier)
+    }
+}
+
+/// C02 is decided by two scenarios that share one index space (same layout as C14): within every block of
+/// `dtls::budget + dtls_mitm::budget` indices the first `dtls::budget` belong to `dtls_layer` (on-path rewriter and
+/// impostor endpoints; block 0 = its systematic core + swarm, unchanged) and the following `dtls_mitm::budget` to
+/// `dtls_mitm` (scripted DTLS 1.2 man-in-the-middle; its first indices are the enumerated script catalogue).
+fn c02_generate(prop: &str, seed: u64, idx: u64, tier: Tier) -> Plan {
+    let (a, b) = (dtls::budget(prop, tier), dtls_mitm::budget(prop, tier));
+    let (block, off) = (idx / (a + b), idx % (a + b));
+    if off < a {
+        dtls::generate(prop, seed, block * a + off, tier)
+    } else {
+        dtls_mitm::generate(prop, seed, block * b + (off - a), tier)
     }
 }
